@@ -288,7 +288,8 @@ def mergeAspas (l : List AspaDefn) : List (Nat × List Nat) :=
       (fun acc d => d.providers.foldl (fun a p => if a.contains p then a else a ++ [p]) acc) []))
 
 def rpPreds (obs : Json) (objs : List (String × List (Nat × ClassO))) (synced : String → Bool)
-    (ignoredRevokes ignoredMissing : List String) (aged : String → Nat → Bool) : List String :=
+    (ignoredRevokes ignoredMissing : List String) (aged : String → Nat → Bool)
+    (settled : List String := []) : List String :=
   let rp := jget obs "rp"
   if jisNull rp then [] else
   -- decoded manifests/CRLs of every CA whose server content is its object set
@@ -297,7 +298,11 @@ def rpPreds (obs : Json) (objs : List (String × List (Nat × ClassO))) (synced 
   -- a repository sync that was put back ("premature", retried a second later) is still outstanding
   let syncOutstanding := (handlesOf obs "server").any fun h => syncPending obs h
   if !((jbool? (jget rp "quiescent")).getD false) || syncOutstanding then p0 else
-  let lagging := laggingCas obs
+  -- a child that `settle` has just given four rounds of sync + pump with its parent is not excused
+  -- as "lagging" any more: if it still does not hold the certificate on file, that is final
+  let lagging := (laggingCas obs).filter fun h => !settled.contains h
+  let underSettled (uri : String) : Bool :=
+    settled.any fun h => (laggingCas obs).contains h && (uri.splitOn s!"/repo/{h}/").length > 1
   let underLagging (uri : String) : Bool :=
     lagging.any fun h => (uri.splitOn s!"/repo/{h}/").length > 1
   -- manifest and CRL of the old key of a class in the `old` phase of a roll
@@ -329,6 +334,8 @@ def rpPreds (obs : Json) (objs : List (String × List (Nat × ClassO))) (synced 
     then "RpTreeValid/no-manifest-after-ignored-revocation"
     else if kind == "unlisted" && retiredFiles.contains uri
     then "RpTreeValid/unlisted-retired-key"
+    else if kind == "overclaim" && underSettled uri
+    then "RpTreeValid/overclaim/cert-on-file-differs"
     else s!"RpTreeValid/{kind}") ++
   (if ((jarr (jget rp "missing")).filter fun u => !(underLagging (jstr u))).isEmpty then [] else ["RpTreeValid/missing"]) ++
   (if !lagging.isEmpty then [] else
